@@ -29,7 +29,7 @@ pub fn guards(id: &str) -> Vec<(&'static str, u64)> {
         "C08" => vec![("history.exhaustive", 131072), ("history.seeded", 1000), ("probe.zuc.zero-length-request", 10000), ("oracle.C08.keystream", 1000000)],
         "C09" => vec![("oracle.C09.O9.3-exact", 100), ("oracle.C09.annex-example", 1), ("probe.sm9.verify.accepted", 500), ("probe.sm9.verify.rejected", 2000), ("fault.flip", 3000)],
         "C10" => vec![("oracle.C10.O10.2-exact", 200), ("oracle.C10.annex-example", 1), ("probe.sm9.k1-zero-r-found", 1), ("probe.sm9.decrypt.accepted", 500), ("probe.sm9.decrypt.rejected", 4000), ("fault.crafted-offcurve-C1", 8), ("fault.crafted-zero-point", 4), ("fault.xorpair", 50)],
-        "C14" => vec![("oracle.C14.used-was-offered", 10000), ("rngfault.offer-0", 11), ("rngfault.offer-order", 11), ("rngfault.offer-2^256-1", 11), ("rngfault.offer-eight-in-a-row", 11), ("oracle.C14.M3-bit-frequency", 11), ("oracle.C14.M3-restart-fresh", 1), ("oracle.C14.M3-threads-fresh", 1), ("probe.c14.m3-scalars-sm2", 5000), ("probe.c14.m3-scalars-sm9", 2000), ("probe.c14.m3-restart-scalars", 60), ("probe.c14.simenv-children", 2), ("probe.c14.m3-bulk-scalars-sm9", 400000), ("probe.c14.m3-bulk-scalars-sm2", 25000), ("oracle.C14.M3-simenv-fresh", 1), ("history.same-inputs-again", 100)],
+        "C14" => vec![("oracle.C14.used-was-offered", 10000), ("rngfault.offer-0", 11), ("rngfault.offer-order", 11), ("rngfault.offer-2^256-1", 11), ("rngfault.offer-eight-in-a-row", 11), ("oracle.C14.M3-bit-frequency", 11), ("oracle.C14.M3-restart-fresh", 1), ("oracle.C14.M3-threads-fresh", 1), ("probe.c14.m3-scalars-sm2", 5000), ("probe.c14.m3-scalars-sm9", 2000), ("probe.c14.m3-restart-scalars", 60), ("probe.c14.simenv-children", 2), ("probe.c14.m3-bulk-scalars-sm9", 3400000), ("probe.c14.m3-bulk-scalars-sm2", 60000), ("oracle.C14.M3-not-a-function-of-previous", 2), ("oracle.C14.M3-simenv-fresh", 1), ("history.same-inputs-again", 100)],
         "C15" => vec![("probe.sm2.kex.completed", 300), ("oracle.C15.O15.2-K_A-conforms", 200), ("oracle.C15.O15.3-tamper-detected", 300), ("history.second-run-on-same-objects", 20), ("history.tamper-subset-15", 6)],
         "C17" => vec![("oracle.C17.annex-example", 1), ("probe.sm9.kex.completed", 40), ("probe.sm9.kex.zero-key-rB-found", 1), ("oracle.C17.O17.3-offcurve-rejected", 500), ("oracle.C17.O17.2-SK_A-conforms", 20), ("history.encrypt-before-exchange", 5)],
         "C19" => vec![("oracle.C19.O19.2-openssl-document", 30), ("oracle.C19.O19.4-openssl-ciphertext", 12), ("oracle.C19.O19.4-der-exact", 100), ("probe.asn1.rare-k.x-lead-3", 1), ("probe.asn1.rare-k.y-lead-1-then-high-bit", 1), ("probe.doc.pk.accepted", 500), ("probe.doc.pk.rejected", 2000), ("probe.doc.sk.accepted", 500), ("history.semantic-documents", 3)],
